@@ -109,6 +109,24 @@ def run(ctx: Context):
                     r.require(ok and want is not None and field == want, p, p.loc(c),
                               "root of %s is seeded with %s (expected UEB field %r of the validated UEB)" % (
                                   recv, src(p, v), want))
+        # both trust roots ARE seeded (at index 0) on every normal path through the parser: an unseeded tree
+        # derives its own root from the data it is given and accepts anything
+        pcfg = p.cfg()
+        for recv in ("self.ciphertext_hash_tree", "self.share_hash_tree"):
+            def seeds(n, _recv=recv):
+                for c in calls_at(n, "set_hashes"):
+                    a0 = arg(c, 0, "hashes")
+                    if attr_path(c.func.value) == _recv and dict_literal_keys(a0) == [0]:
+                        return True
+                return False
+            r.site(p, None, "root of %s seeded on all paths" % recv)
+            for (t, w) in find_path_avoiding(pcfg, lambda n: n.kind == "exit", gate_node=seeds,
+                                             kill=stores(recv) if recv == "self.share_hash_tree" else None):
+                r.violation(p, p.loc(), "the validated UEB can be accepted without seeding the root of %s at index 0: the tree "
+                            "would then accept any hash chain (path: %s)" % (recv, w.brief()), w)
+            # a re-bound tree object must be seeded after the re-binding
+            for (t, w) in find_path_avoiding(pcfg, lambda n: n.kind == "exit", gate_node=seeds, kill=stores(recv)):
+                r.violation(p, p.loc(), "%s is re-bound after its root was seeded" % recv, w)
         # set_block_hash_root argument at its call site is share_hash_tree.get_leaf(self._shnum)
         g = idx.func(SHARE + "._get_satisfaction")
         gnorm = FlowNorm(g)
@@ -319,6 +337,11 @@ def run(ctx: Context):
             v = n.ast.value
             ok = isinstance(v, ast.Tuple) and len(v.elts) == 3 and fnorm.norm(n, v.elts[1]) == cps[0] + "[0]"
             r.require(ok, ck, ck.loc(n.ast), "returns %s, not the segment that was hashed" % src(ck, v))
+            if ok:
+                lab = fnorm.norm(n, v.elts[0])
+                r.require(lab == norm_src("%s * self.segment_size" % cps[1]), ck, ck.loc(n.ast),
+                          "the validated segment is labelled with file offset %s, not segnum * segment_size: the reader "
+                          "slices the segment relative to that offset and would deliver the wrong bytes" % lab)
         bad = find_path_avoiding(cfg, lambda n: n.kind == "exit", gate_node=sets_leaf)
         for (n, w) in bad:
             r.violation(ck, ck.loc(), "segment returned without checking crypttext_segment_hash(segment) "
